@@ -107,6 +107,9 @@ func (e *Eng) declOnce(d string) {
 	if !e.bv && strings.Contains(preludeInt, d+"\n") {
 		return // already part of the prelude
 	}
+	if e.bv && strings.Contains(preludeBV, d+"\n") {
+		return
+	}
 	if !e.declSet[d] {
 		e.declSet[d] = true
 		e.decls = append(e.decls, d)
@@ -347,7 +350,11 @@ func (e *Eng) heapGet(st *State, key string) string {
 // reference held in memory when a heap symbol is introduced (function entry, after a call
 // whose effects are unknown, at the head of a summarised loop) is >= the frontier of that
 // moment, so nothing read from memory can alias an object allocated later. This is how Go
-// behaves; it needs no separation hypothesis.
+// behaves; it needs no separation hypothesis. The axiom speaks only about objects that exist at
+// that moment (identity >= frontier): a heap symbol says nothing about the fields of an object
+// allocated later, so a callee's postcondition about the fields of the object it returns stays
+// consistent. References returned by calls and locals forgotten at a loop head exist at that
+// moment too and are >= the frontier of that moment (existingRefs).
 
 var noFrontier = os.Getenv("GOVC_NO_FRONTIER") != ""
 
@@ -397,12 +404,12 @@ func (e *Eng) refAxiom(key, h, fr string) string {
 		if !isRefTag(rest) {
 			return ""
 		}
-		return fmt.Sprintf("(forall ((x Int) (i %s)) (! (>= (select (select %s x) i) %s) :pattern ((select (select %s x) i))))", e.idxSort(), h, fr, h)
+		return fmt.Sprintf("(forall ((x Int) (i %s)) (! (=> (>= x %s) (>= (select (select %s x) i) %s)) :pattern ((select (select %s x) i))))", e.idxSort(), fr, h, fr, h)
 	case "F", "P":
 		if !isRefTag(rest) {
 			return ""
 		}
-		return fmt.Sprintf("(forall ((x Int)) (! (>= (select %s x) %s) :pattern ((select %s x))))", h, fr, h)
+		return fmt.Sprintf("(forall ((x Int)) (! (=> (>= x %s) (>= (select %s x) %s)) :pattern ((select %s x))))", fr, h, fr, h)
 	case "G":
 		if !isRefTag(rest) {
 			return ""
@@ -413,7 +420,7 @@ func (e *Eng) refAxiom(key, h, fr string) string {
 		if len(kv) < 2 || !isRefTag(kv[1]) {
 			return ""
 		}
-		return fmt.Sprintf("(forall ((x Int) (k %s)) (! (>= (select (select %s x) k) %s) :pattern ((select (select %s x) k))))", e.tagSort(kv[0]), h, fr, h)
+		return fmt.Sprintf("(forall ((x Int) (k %s)) (! (=> (>= x %s) (>= (select (select %s x) k) %s)) :pattern ((select (select %s x) k))))", e.tagSort(kv[0]), fr, h, fr, h)
 	}
 	return ""
 }
@@ -429,9 +436,16 @@ func (e *Eng) heapHavoc(st *State, key string) {
 	st.heap[key] = h
 	if !noFrontier {
 		if e.refAxiom(key, h, "0") != "" {
-			// whatever forgot this location may have allocated: the frontier can only have gone down
-			fr := e.newSym("fr", "Int")
-			st.assume("(<= " + fr + " " + st.front() + ")")
+			// whatever forgot this location may have allocated: the frontier can only have gone down.
+			// All locations forgotten by one effect (one call, one loop summary) share one frontier.
+			fr := st.groupFr
+			if fr == "" {
+				fr = e.newSym("fr", "Int")
+				st.assume("(<= " + fr + " " + st.front() + ")")
+				if st.inGroup {
+					st.groupFr = fr
+				}
+			}
 			st.frontier = fr
 			st.assume(e.refAxiom(key, h, fr))
 		}
@@ -650,6 +664,10 @@ func (e *Eng) alloc(st *State, name string) string {
 	}
 	if len(st.allocs) > 0 {
 		st.assume("(distinct " + r + " " + strings.Join(st.allocs, " ") + ")")
+	}
+	for _, k := range st.known {
+		// references handed back by calls exist already (they may alias each other or an allocation)
+		st.assume("(not (= " + r + " " + k + "))")
 	}
 	// a fresh allocation differs from every reference held in a variable
 	var held []string
@@ -921,4 +939,50 @@ func sortStrings(m map[string]bool) []string {
 	}
 	sort.Strings(out)
 	return out
+}
+
+// existingRefs states that the reference components of v denote objects that exist now.
+func (e *Eng) existingRefs(st *State, v Val) {
+	if noFrontier {
+		return
+	}
+	fresh := func(t string) bool { return strings.HasPrefix(t, "ret") || strings.HasPrefix(t, "hv.") || strings.HasPrefix(t, "loop.") }
+	known := func(t string) {
+		// a reference that later reads from memory may yield (refOrigin) and that later
+		// allocations differ from
+		for _, a := range st.known {
+			if a == t {
+				return
+			}
+		}
+		st.known = append(st.known, t)
+	}
+	switch v.K {
+	case KRef:
+		if fresh(v.T) {
+			st.assume("(>= " + v.T + " " + st.front() + ")")
+			known(v.T)
+		}
+	case KSlice:
+		if fresh(v.Ref) {
+			st.assume("(>= " + v.Ref + " " + st.front() + ")")
+			known(v.Ref)
+		}
+	case KTuple:
+		for _, x := range v.Elts {
+			e.existingRefs(st, x)
+		}
+	}
+}
+
+// havocGroup runs f, during which every location forgotten shares one allocation frontier
+// (f must not allocate). Nested groups join the outer one.
+func (e *Eng) havocGroup(st *State, f func()) {
+	if st.inGroup {
+		f()
+		return
+	}
+	st.inGroup, st.groupFr = true, ""
+	defer func() { st.inGroup, st.groupFr = false, "" }()
+	f()
 }
